@@ -273,9 +273,13 @@ pub fn seq_oracle(case: &SeqCase) -> Verdict {
             // the same message, with the same slot choices, once without its last byte
             let (full, _) = sender_encode(cv, pv.as_ref(), &mut sc, &mut choose(si), &mut Canonical);
             let cut = &full[..full.len() - 1];
-            let _ = read_dist_message(cut, &mut shadow);
+            // (without its last byte the message may still be a complete one, e.g. when the payload was a one-byte term:
+            // the independent reader says whether it is)
+            let still_valid = read_dist_message(cut, &mut shadow).is_ok();
             if let Ok((c2, _)) = erltf::decode_with_atom_cache(cut, &mut cache) {
-                vfail!("truncated-message-accepted", "message {mi} without its last byte decoded as {}", denote(&c2).render());
+                if !still_valid {
+                    vfail!("truncated-message-accepted", "message {mi} without its last byte decoded as {}", denote(&c2).render());
+                }
             }
             bad_frames += 1;
         }
